@@ -1181,3 +1181,92 @@ def replay_bls_aggverify(args):
                     if got is not exp:
                         bad.append((sname, n, name, got))
     return (len(bad) > 0), "bls_aggverify: %d mismatches %s" % (len(bad), str(bad[:3])[:300])
+
+
+def _malformed_keys():
+    from py_ecc.bls import G2Basic as S
+    from py_ecc.bls.g2_primitives import G1_to_pubkey
+    from py_ecc.optimized_bls12_381 import FQ, multiply, curve_order, is_inf, Z1
+    q = _Q381
+    pk = S.SkToPk(42)
+    z = int.from_bytes(pk, "big")
+    out = [("empty", b""), ("47 bytes", pk[1:]), ("47 bytes b", pk[:47]), ("leading zero byte", b"\x00" + pk), ("leading 01 byte", b"\x01" + pk),
+           ("two leading bytes", b"\x00\x00" + pk), ("trailing byte", pk + b"\x00"), ("96 bytes", pk + pk), ("identity", G1_to_pubkey(Z1)),
+           ("zero-padded short", b"\x00" * 48), ("random", bytes(range(48))), ("200 bytes", pk * 4 + pk[:8])]
+    for fl in range(8):
+        if fl != (z >> 381):
+            out.append(("flags %d" % fl, ((fl << 381) | (z % 2 ** 381)).to_bytes(48, "big")))
+    for x, nm in ((q, "x=q"), (q + 1, "x=q+1"), (2 ** 381 - 1, "x=2^381-1"), (q - 1, "x=q-1"), (1, "x=1"), (5, "x=5 (maybe off curve)")):
+        out.append((nm, ((4 << 381) | x).to_bytes(48, "big")))
+    # on-curve point outside the prime-order subgroup
+    x = 1
+    while True:
+        t = (x ** 3 + 4) % q
+        y = pow(t, (q + 1) // 4, q)
+        if y * y % q == t:
+            P = (FQ(x), FQ(y), FQ(1))
+            if not is_inf(multiply(P, curve_order)):
+                out.append(("on curve, not in subgroup x=%d" % x, G1_to_pubkey(P)))
+                break
+        x += 1
+    return pk, out
+
+
+def replay_bls_keyvalidate(args):
+    from py_ecc import bls
+    pk, keys = _malformed_keys()
+    bad = []
+    for sname in ("G2Basic", "G2MessageAugmentation", "G2ProofOfPossession"):
+        S = getattr(bls, sname)
+        if S.KeyValidate(pk) is not True:
+            bad.append((sname, "valid key rejected"))
+        for nm, k in keys:
+            try:
+                got = S.KeyValidate(k)
+            except Exception as e:
+                got = repr(e)[:60]
+            if got is not False:
+                bad.append((sname, nm, len(k), got))
+    finding = None
+    if bad and all(b[1].startswith("leading") or b[1].startswith("two leading") for b in bad if len(b) > 2) and all(len(b) > 2 for b in bad):
+        finding = "keyvalidate-length"
+    return (len(bad) > 0), "bls_keyvalidate: %d wrong answers %s" % (len(bad), str(bad[:3])[:300])
+
+
+def replay_bls_total(args):
+    """every verifier on malformed keys / signatures: must answer False without raising."""
+    from py_ecc import bls
+    from py_ecc.bls.g2_primitives import G2_to_signature
+    pk, keys = _malformed_keys()
+    bad = []
+    Sb = bls.G2Basic
+    msg = b"m"
+    sig = Sb.Sign(42, msg)
+    T = _g2_torsion_point()
+    sigs = [("empty", b""), ("95", sig[:95]), ("97", sig + b"\x00"), ("leading zero", b"\x00" + sig), ("48", sig[:48]),
+            ("torsion point", G2_to_signature(T)), ("zeros", b"\x00" * 96), ("flag in second word", sig[:48] + bytes([sig[48] | 0x80]) + sig[49:])]
+    for sname in ("G2Basic", "G2MessageAugmentation", "G2ProofOfPossession"):
+        S = getattr(bls, sname)
+        good_sig = S.Sign(42, msg)
+        calls = []
+        for nm, k in keys[:14]:
+            calls.append(("Verify key " + nm, lambda k=k: S.Verify(k, msg, good_sig)))
+            calls.append(("AggregateVerify key " + nm, lambda k=k: S.AggregateVerify([pk, k], [msg, b"n"], good_sig)))
+        for nm, s_ in sigs:
+            calls.append(("Verify sig " + nm, lambda s_=s_: S.Verify(pk, msg, s_)))
+            calls.append(("AggregateVerify sig " + nm, lambda s_=s_: S.AggregateVerify([pk], [msg], s_)))
+        if sname == "G2ProofOfPossession":
+            for nm, k in keys[:14]:
+                calls.append(("PopVerify key " + nm, lambda k=k: S.PopVerify(k, good_sig)))
+                calls.append(("FastAggregateVerify key " + nm, lambda k=k: S.FastAggregateVerify([pk, k], msg, good_sig)))
+            for nm, s_ in sigs:
+                calls.append(("PopVerify sig " + nm, lambda s_=s_: S.PopVerify(pk, s_)))
+                calls.append(("FastAggregateVerify sig " + nm, lambda s_=s_: S.FastAggregateVerify([pk], msg, s_)))
+        for nm, th in calls:
+            try:
+                got = th()
+            except Exception as e:
+                got = repr(e)[:60]
+            if got is not False:
+                bad.append((sname, nm, got))
+    return (len(bad) > 0), "bls_total: %d wrong answers %s" % (len(bad), str(bad[:3])[:300])
